@@ -63,20 +63,22 @@ theorem keysDistinct_filter_snoc (l : List Entry) (cid : Nat) (k : List Char) (e
   rw [this] at ha
   exact Bool.noConfusion ha.2
 
-structure GetSpec (c : Cache) (cid : Nat) (k : List Char) (now : Nat) : Prop where
-  cap : (c.get cid k now).1.cap = c.cap
-  sub : ∀ e ∈ (c.get cid k now).1.entries, e ∈ c.entries
-  len : (c.get cid k now).1.entries.length ≤ c.entries.length
-  distinct : KeysDistinct c.entries → KeysDistinct (c.get cid k now).1.entries
-  hit : ∀ rc, (c.get cid k now).2 = some rc →
+structure GetSpec (c : Cache) (cid : Nat) (k : List Char) (now : Nat) (rf : Option Nat) : Prop where
+  cap : (c.get cid k now rf).1.cap = c.cap
+  /-- every entry afterwards is an entry from before, up to the expiry a hit may re-store -/
+  sub : ∀ e ∈ (c.get cid k now rf).1.entries,
+    ∃ e0 ∈ c.entries, e.cid = e0.cid ∧ e.ikey = e0.ikey ∧ e.rc = e0.rc ∧ (rf = none → e = e0)
+  len : (c.get cid k now rf).1.entries.length ≤ c.entries.length
+  distinct : KeysDistinct c.entries → KeysDistinct (c.get cid k now rf).1.entries
+  hit : ∀ rc, (c.get cid k now rf).2 = some rc →
     ∃ e ∈ c.entries, e.cid = cid ∧ e.ikey = k ∧ e.rc = rc ∧ Gen.C14.entryDead e.expires now = false
 
-theorem get_spec (c : Cache) (cid : Nat) (k : List Char) (now : Nat) : GetSpec c cid k now := by
+theorem get_spec (c : Cache) (cid : Nat) (k : List Char) (now : Nat) (rf : Option Nat) : GetSpec c cid k now rf := by
   cases hf : c.entries.find? (·.hasKey cid k) with
   | none =>
-    have hget : c.get cid k now = (c, none) := by simp only [Cache.get, hf]
-    exact ⟨by rw [hget], by rw [hget]; exact fun e h => h, by rw [hget]; exact Nat.le_refl _,
-      by rw [hget]; exact fun h => h, by rw [hget]; intro rc h; simp at h⟩
+    have hget : c.get cid k now rf = (c, none) := by simp only [Cache.get, hf]
+    exact ⟨by rw [hget], by rw [hget]; exact fun e h => ⟨e, h, rfl, rfl, rfl, fun _ => rfl⟩,
+      by rw [hget]; exact Nat.le_refl _, by rw [hget]; exact fun h => h, by rw [hget]; intro rc h; simp at h⟩
   | some e =>
     have hmem : e ∈ c.entries := List.mem_of_find?_eq_some hf
     have hkey : e.hasKey cid k = true := by simpa using List.find?_some hf
@@ -84,24 +86,27 @@ theorem get_spec (c : Cache) (cid : Nat) (k : List Char) (now : Nat) : GetSpec c
     have hlen := filter_find_length (·.hasKey cid k) c.entries e hf
     cases hd : Gen.C14.entryDead e.expires now with
     | true =>
-      have hget : c.get cid k now
+      have hget : c.get cid k now rf
           = ({ c with entries := c.entries.filter (fun x => !x.hasKey cid k) }, none) := by
         simp only [Cache.get, hf, hd, if_true]
       refine ⟨by rw [hget], ?_, ?_, ?_, ?_⟩
-      · rw [hget]; exact fun x hx => (List.mem_filter.1 hx).1
+      · rw [hget]; exact fun x hx => ⟨x, (List.mem_filter.1 hx).1, rfl, rfl, rfl, fun _ => rfl⟩
       · rw [hget]; exact List.length_filter_le _ _
       · rw [hget]; exact fun h => h.filter _
       · rw [hget]; intro rc h; simp at h
     | false =>
-      have hget : c.get cid k now
-          = ({ c with entries := c.entries.filter (fun x => !x.hasKey cid k) ++ [e] }, some e.rc) := by
+      have hget : c.get cid k now rf
+          = ({ c with entries := c.entries.filter (fun x => !x.hasKey cid k)
+                ++ [{ e with expires := rf.getD e.expires }] }, some e.rc) := by
         simp only [Cache.get, hf, hd, Bool.false_eq_true, if_false]
       refine ⟨by rw [hget], ?_, ?_, ?_, ?_⟩
       · rw [hget]
         intro x hx
         rcases List.mem_append.1 hx with hx | hx
-        · exact (List.mem_filter.1 hx).1
-        · simp only [List.mem_singleton] at hx; exact hx ▸ hmem
+        · exact ⟨x, (List.mem_filter.1 hx).1, rfl, rfl, rfl, fun _ => rfl⟩
+        · simp only [List.mem_singleton] at hx
+          refine ⟨e, hmem, by rw [hx], by rw [hx], by rw [hx], ?_⟩
+          intro hrf; rw [hx, hrf]; rfl
       · rw [hget]; simp only [List.length_append, List.length_singleton]; exact hlen
       · rw [hget]; exact fun h => keysDistinct_filter_snoc _ _ _ _ h hk
       · rw [hget]
@@ -168,10 +173,11 @@ theorem live_entry_fresh (cfg : Cfg) (now exp created : Nat)
 /-! ### the invariant -/
 
 /-- a cache entry holds the call minted under its call id, keyed by the identity key of that call's owner, and (when the
-    miss path ages entries from the token) dies no later than the call token -/
+    miss path ages entries from the token and a hit leaves the expiry alone) dies no later than the call token -/
 def EntryOk (cfg : Cfg) (calls : List Call) (e : Entry) : Prop :=
   ∃ cl, calls[e.cid]? = some cl ∧ e.rc = cl.rc ∧ e.ikey = identKey cl.owner ∧
-    (cfg.shape.missAnchor = .created → 0 < cfg.ttl → e.expires ≤ (cl.created + cfg.ttl + 1) * cfg.tps)
+    (cfg.shape.missAnchor = .created → cfg.shape.hitRefreshes = false → 0 < cfg.ttl →
+      e.expires ≤ (cl.created + cfg.ttl + 1) * cfg.tps)
 
 def CacheOk (cfg : Cfg) (calls : List Call) (c : Cache) : Prop :=
   (∀ e ∈ c.entries, EntryOk cfg calls e) ∧ KeysDistinct c.entries ∧ c.entries.length ≤ c.cap
@@ -213,11 +219,21 @@ theorem cacheOk_cache {cfg : Cfg} {W : World} (h : ∀ ch ∈ W.caches, CacheOk 
   | none => exact cacheOk_default cfg W.calls
   | some ch => exact h ch (List.mem_of_getElem? hc)
 
+theorem hitRefresh_none {cfg : Cfg} (h : cfg.shape.hitRefreshes = false) (now : Nat) : hitRefresh cfg now = none := by
+  simp [hitRefresh, h]
+
 theorem cacheOk_get {cfg : Cfg} {calls : List Call} {c : Cache} (h : CacheOk cfg calls c)
-    (cid : Nat) (k : List Char) (now : Nat) : CacheOk cfg calls (c.get cid k now).1 := by
-  have g := get_spec c cid k now
-  refine ⟨fun e he => h.1 e (g.sub e he), g.distinct h.2.1, ?_⟩
-  rw [g.cap]; exact Nat.le_trans g.len h.2.2
+    (cid : Nat) (k : List Char) (now : Nat) (rf : Option Nat) (hrf : cfg.shape.hitRefreshes = false → rf = none) :
+    CacheOk cfg calls (c.get cid k now rf).1 := by
+  have g := get_spec c cid k now rf
+  refine ⟨?_, g.distinct h.2.1, ?_⟩
+  · intro e he
+    obtain ⟨e0, he0, h1, h2, h3, h4⟩ := g.sub e he
+    obtain ⟨cl, hcl, hrc, hik, hb⟩ := h.1 e0 he0
+    refine ⟨cl, by rw [h1]; exact hcl, by rw [h3]; exact hrc, by rw [h2]; exact hik, ?_⟩
+    intro hm hr httl
+    rw [h4 (hrf hr)]; exact hb hm hr httl
+  · rw [g.cap]; exact Nat.le_trans g.len h.2.2
 
 theorem cacheOk_put {cfg : Cfg} {calls : List Call} {c : Cache} (h : CacheOk cfg calls c)
     (cid : Nat) (k : List Char) (rc : RC) (x : Nat) (hnew : EntryOk cfg calls ⟨cid, k, x, rc⟩) :
@@ -323,8 +339,9 @@ theorem serveCont_inv {cfg : Cfg} {W : World} (h : Inv cfg W) (w : Nat) (rq : Re
     obtain ⟨⟨i, _, hci⟩, haad, _⟩ := openCursor_ok hopen
     have hcok : CursorOk W.calls c := h.cursors c (List.mem_of_getElem? hci)
     have hcache := cacheOk_cache h.caches w
-    have hget := cacheOk_get hcache c.cid (identKey rq.ident) W.now
-    rcases hg : (W.cache w).get c.cid (identKey rq.ident) W.now with ⟨cache1, _ | rc⟩
+    have hget := cacheOk_get hcache c.cid (identKey rq.ident) W.now (hitRefresh cfg W.now)
+      (fun hr => hitRefresh_none hr W.now)
+    rcases hg : (W.cache w).get c.cid (identKey rq.ident) W.now (hitRefresh cfg W.now) with ⟨cache1, _ | rc⟩
     · rw [hg] at hget
       simp only [hg]
       cases hres : resolveCall cfg W rq c.cid with
@@ -337,7 +354,7 @@ theorem serveCont_inv {cfg : Cfg} {W : World} (h : Inv cfg W) (w : Nat) (rq : Re
         apply inv_setCache h
         apply cacheOk_put hget
         refine ⟨cl, hcl, hrc, aad_eq_key_eq haad2.symm, ?_⟩
-        intro hm httl
+        intro hm _ httl
         rw [hm, hcr]
         exact expiry_created_le cfg W.now cl.created httl
     · rw [hg] at hget
@@ -366,7 +383,7 @@ theorem serveInit_inv {cfg : Cfg} {W : World} (htps : 0 < cfg.tps) (h : Inv cfg 
     · rw [h1]
       apply cacheOk_put (cacheOk_mono _ (cacheOk_cache h.caches w))
       refine ⟨⟨ident, W.nowS cfg, ⟨content, stype, m⟩⟩, by simp, rfl, rfl, ?_⟩
-      intro _ httl
+      intro _ _ httl
       exact expiry_le cfg cfg.shape.initAnchor W.now htps httl
 
 theorem step_inv {cfg : Cfg} {W : World} (htps : 0 < cfg.tps) (h : Inv cfg W) (s : Step) : Inv cfg (step cfg W s) := by
@@ -416,21 +433,21 @@ theorem emptied_cache_entries (W : World) (w : Nat) : (W.emptied.cache w).entrie
   simp only [List.getElem?_map]
   cases W.caches[w]? <;> rfl
 
-theorem get_of_empty (c : Cache) (h : c.entries = []) (cid : Nat) (k : List Char) (now : Nat) :
-    c.get cid k now = (c, none) := by
+theorem get_of_empty (c : Cache) (h : c.entries = []) (cid : Nat) (k : List Char) (now : Nat) (rf : Option Nat) :
+    c.get cid k now rf = (c, none) := by
   simp [Cache.get, h]
 
 /-- a miss answers as the cold path does, whatever the cache holds -/
 theorem miss_cold (cfg : Cfg) (W : World) (w : Nat) (rq : Req)
     (hmiss : ∀ c, openCursor cfg W rq = .ok c →
-      ((W.cache w).get c.cid (identKey rq.ident) W.now).2 = none) :
+      ((W.cache w).get c.cid (identKey rq.ident) W.now (hitRefresh cfg W.now)).2 = none) :
     (serveCont cfg W w rq).2 = coldOutcome cfg W rq := by
   unfold serveCont coldOutcome
   cases hopen : openCursor cfg W rq with
   | error r => rfl
   | ok c =>
     have hm := hmiss c hopen
-    rcases hg : (W.cache w).get c.cid (identKey rq.ident) W.now with ⟨cache1, _ | rc⟩
+    rcases hg : (W.cache w).get c.cid (identKey rq.ident) W.now (hitRefresh cfg W.now) with ⟨cache1, _ | rc⟩
     · simp only [hg]
       cases hres : resolveCall cfg W rq c.cid with
       | error r => rfl
@@ -459,13 +476,13 @@ def HitSafe (cfg : Cfg) (W : World) (w : Nat) (rq : Req) : Prop :=
 /-- what a hit hands back: the call minted under the cursor's call id, for a caller with the same AAD identity -/
 theorem hit_sound {cfg : Cfg} {W : World} (hinv : Inv cfg W) (w : Nat) (rq : Req) (c : Cursor) (rc : RC)
     (cache1 : Cache) (hopen : openCursor cfg W rq = .ok c)
-    (hg : (W.cache w).get c.cid (identKey rq.ident) W.now = (cache1, some rc)) :
+    (hg : (W.cache w).get c.cid (identKey rq.ident) W.now (hitRefresh cfg W.now) = (cache1, some rc)) :
     ∃ cl e, W.calls[c.cid]? = some cl ∧ rc = cl.rc ∧ aadTail cl.owner = aadTail rq.ident ∧
       e ∈ (W.cache w).entries ∧ e.cid = c.cid ∧ e.ikey = identKey rq.ident ∧
       Gen.C14.entryDead e.expires W.now = false ∧ EntryOk cfg W.calls e := by
   obtain ⟨⟨i, _, hci⟩, haad, _⟩ := openCursor_ok hopen
   obtain ⟨clc, hclc, haadc⟩ := hinv.cursors c (List.mem_of_getElem? hci)
-  have g := (get_spec (W.cache w) c.cid (identKey rq.ident) W.now).hit rc (by rw [hg])
+  have g := (get_spec (W.cache w) c.cid (identKey rq.ident) W.now (hitRefresh cfg W.now)).hit rc (by rw [hg])
   obtain ⟨e, hmem, hcid, hkey, hrc, hlive⟩ := g
   have hok := (cacheOk_cache hinv.caches w).1 e hmem
   have hok2 := hok
@@ -478,7 +495,7 @@ theorem hit_sound {cfg : Cfg} {W : World} (hinv : Inv cfg W) (w : Nat) (rq : Req
 theorem hit_cold {cfg : Cfg} {W : World} (hinv : Inv cfg W) (w : Nat) (rq : Req)
     (hecho : Echo W rq) (hsafe : HitSafe cfg W w rq) (c : Cursor) (rc : RC) (cache1 : Cache)
     (hopen : openCursor cfg W rq = .ok c)
-    (hg : (W.cache w).get c.cid (identKey rq.ident) W.now = (cache1, some rc)) :
+    (hg : (W.cache w).get c.cid (identKey rq.ident) W.now (hitRefresh cfg W.now) = (cache1, some rc)) :
     (serveCont cfg W w rq).2 = coldOutcome cfg W rq := by
   obtain ⟨cl, e, hcl, hrc, haad, hmem, hcid, hkey, hlive, hok⟩ := hit_sound hinv w rq c rc cache1 hopen hg
   obtain ⟨⟨i, hcur, hci⟩, _, _⟩ := openCursor_ok hopen
@@ -510,7 +527,7 @@ theorem warm_cold {cfg : Cfg} {W : World} (hinv : Inv cfg W) (w : Nat) (rq : Req
   cases hopen : openCursor cfg W rq with
   | error r => exact miss_cold cfg W w rq (fun c hc => by rw [hopen] at hc; exact absurd hc (by simp))
   | ok c =>
-    rcases hg : (W.cache w).get c.cid (identKey rq.ident) W.now with ⟨cache1, _ | rc⟩
+    rcases hg : (W.cache w).get c.cid (identKey rq.ident) W.now (hitRefresh cfg W.now) with ⟨cache1, _ | rc⟩
     · apply miss_cold
       intro c' hc'
       rw [hopen] at hc'
@@ -522,7 +539,7 @@ theorem warm_cold {cfg : Cfg} {W : World} (hinv : Inv cfg W) (w : Nat) (rq : Req
 /-- when entries age from the call token and the hit branch keeps the type check, every hit is safe -/
 theorem hitSafe_of_repaired {cfg : Cfg} {W : World} (w : Nat) (rq : Req)
     (hm : cfg.shape.missAnchor = .created) (ht : cfg.shape.hitChecksType = true)
-    (hmt : cfg.shape.hitChecksMethod = true) : HitSafe cfg W w rq := by
+    (hmt : cfg.shape.hitChecksMethod = true) (hr : cfg.shape.hitRefreshes = false) : HitSafe cfg W w rq := by
   intro c cl e _ hcl _ hcid _ hlive hok
   refine ⟨?_, Or.inl ht, Or.inl hmt⟩
   obtain ⟨cl', hcl', _, _, hb⟩ := hok
@@ -530,7 +547,7 @@ theorem hitSafe_of_repaired {cfg : Cfg} {W : World} (w : Nat) (rq : Req)
   have : cl = cl' := by simpa using hcl'
   subst this
   by_cases httl : 0 < cfg.ttl
-  · exact live_entry_fresh cfg W.now e.expires cl.created hlive (hb hm httl)
+  · exact live_entry_fresh cfg W.now e.expires cl.created hlive (hb hm hr httl)
   · have : cfg.ttl = 0 := by omega
     rw [this]; exact tokenExpired_ttl0 _ _
 
@@ -568,10 +585,10 @@ theorem openCursor_congr (cfg : Cfg) (W : World) (rq rq' : Req) (h1 : rq'.ident 
 theorem hit_ignores_call (cfg : Cfg) (W : World) (w : Nat) (rq rq' : Req)
     (h1 : rq'.ident = rq.ident) (h2 : rq'.method = rq.method) (h3 : rq'.cur = rq.cur) (h4 : rq'.cancel = rq.cancel)
     (c : Cursor) (rc : RC) (cache1 : Cache) (hopen : openCursor cfg W rq = .ok c)
-    (hg : (W.cache w).get c.cid (identKey rq.ident) W.now = (cache1, some rc)) :
+    (hg : (W.cache w).get c.cid (identKey rq.ident) W.now (hitRefresh cfg W.now) = (cache1, some rc)) :
     (serveCont cfg W w rq').2 = (serveCont cfg W w rq).2 := by
   have hopen' : openCursor cfg W rq' = .ok c := by rw [openCursor_congr cfg W rq rq' h1 h3]; exact hopen
-  have hg' : (W.cache w).get c.cid (identKey rq'.ident) W.now = (cache1, some rc) := by rw [h1]; exact hg
+  have hg' : (W.cache w).get c.cid (identKey rq'.ident) W.now (hitRefresh cfg W.now) = (cache1, some rc) := by rw [h1]; exact hg
   unfold serveCont
   simp only [hopen, hopen', hg, hg', h2]
   split
@@ -596,7 +613,7 @@ theorem served_sound {cfg : Cfg} {W : World} (hinv : Inv cfg W) (w : Nat) (rq : 
   cases hopen : openCursor cfg W rq with
   | error r => rw [hopen] at h; exact absurd h (by simp)
   | ok c0 =>
-    rcases hg : (W.cache w).get c0.cid (identKey rq.ident) W.now with ⟨cache1, _ | rc0⟩
+    rcases hg : (W.cache w).get c0.cid (identKey rq.ident) W.now (hitRefresh cfg W.now) with ⟨cache1, _ | rc0⟩
     · simp only [hopen, hg] at h
       cases hres : resolveCall cfg W rq c0.cid with
       | error r => rw [hres] at h; exact absurd h (by simp)
@@ -699,8 +716,8 @@ theorem serveCont_caps (cfg : Cfg) (W : World) (w : Nat) (rq : Req) : (serveCont
   cases hopen : openCursor cfg W rq with
   | error r => rfl
   | ok c =>
-    have hcap := (get_spec (W.cache w) c.cid (identKey rq.ident) W.now).cap
-    rcases hg : (W.cache w).get c.cid (identKey rq.ident) W.now with ⟨cache1, _ | rc⟩
+    have hcap := (get_spec (W.cache w) c.cid (identKey rq.ident) W.now (hitRefresh cfg W.now)).cap
+    rcases hg : (W.cache w).get c.cid (identKey rq.ident) W.now (hitRefresh cfg W.now) with ⟨cache1, _ | rc⟩
     · rw [hg] at hcap
       simp only [hg]
       cases hres : resolveCall cfg W rq c.cid with
